@@ -382,10 +382,34 @@ Definition break_in_open_name (L : list srcline) (b : node) : bool :=
   | Some l => fn_open_at_end (firstn (N.to_nat (sc (nsp b) - 1)) (ln_body l)) None
   | None => false
   end.
+(* offset, counted from an opening bracket, of the bracket that closes it *)
+Fixpoint close_off (s : bytes) (d i : nat) : option nat :=
+  match s with
+  | [] => None
+  | b :: r =>
+    if beqb b x5b then close_off r (S d) (S i)
+    else if beqb b x5d then match d with O => None | S O => Some i | S d' => close_off r d' (S i) end
+    else close_off r d (S i)
+  end.
+(* the sibling b that fails to come after the reference a is a piece of a's NAME: it starts on a's line at
+   or before the bracket that closes a in the source (when the bracket is not closed on that line the name
+   spans lines).  A reference whose recorded end lies beyond its own closing bracket, so that a sibling
+   written AFTER the bracket overlaps it, is not in this class (seeded change C11-m3). *)
+Definition is_fnref (n : node) : bool := match nval n with FootnoteReference _ _ _ => true | _ => false end.
+Definition inside_name (L : list srcline) (a b : node) : bool :=
+  (sl (nsp a) =? sl (nsp b)) &&
+  match line_at L (sl (nsp a)) with
+  | Some l =>
+    match close_off (skipn (N.to_nat (sc (nsp a) - 1)) (ln_body l)) O O with
+    | Some off => sc (nsp b) <=? sc (nsp a) + N.of_nat off
+    | None => true
+    end
+  | None => false
+  end.
 Fixpoint break_follows (L : list srcline) (n : node) (l : list node) : bool :=
   match l with
   | a :: ((b :: _) as r) =>
-    (same_node a n && (negb (sp_before (nsp a) (nsp b)) ||
+    (same_node a n && ((negb (sp_before (nsp a) (nsp b)) && (negb (is_fnref a) || inside_name L a b)) ||
                        existsb (fun k => break_in_open_name L k && (sl (nsp k) =? sl (nsp a))) r)) || break_follows L n r
   | _ => false
   end.
